@@ -106,9 +106,9 @@ func printKeys(r *explore.Run) {
 // families used by most program-space checks.
 func quickFamilies(r *explore.Run) []*wgen.Family {
 	if r.Thorough() {
-		return []*wgen.Family{wgen.F1(), wgen.F2(3, false), wgen.F2(5, true)}
+		return []*wgen.Family{wgen.F1(), wgen.F2(3, false), wgen.F2(5, true), wgen.F2L(3, false), wgen.F2L(4, true)}
 	}
-	return []*wgen.Family{wgen.F1(), wgen.F2(2, false), wgen.F2(4, true)}
+	return []*wgen.Family{wgen.F1(), wgen.F2(2, false), wgen.F2(4, true), wgen.F2L(2, false), wgen.F2L(3, true)}
 }
 
 // prog is one program presented to a per-program check.
@@ -154,6 +154,9 @@ func familyByName(name string) *wgen.Family {
 		return wgen.F3(name == "F3t")
 	}
 	var k int
+	if n, _ := fmt.Sscanf(name, "F2Lk%d", &k); n == 1 {
+		return wgen.F2L(k, strings.HasSuffix(name, "core"))
+	}
 	if n, _ := fmt.Sscanf(name, "F2k%d", &k); n == 1 {
 		return wgen.F2(k, strings.HasSuffix(name, "core"))
 	}
